@@ -57,8 +57,8 @@ ASSUMPTIONS = [
     "SVD basis of the complement; when that *internal* call is out of domain "
     "(a nearly null basis vector of an indefinite complement) the outer call is "
     "judged only for shape and for orthogonality to the input",
-    "real data only (C18 quantifies over real symmetric forms); complex kernels "
-    "are judged by C16 through Subspace.intersect",
+    "real forms and rows only (C18 quantifies over real symmetric forms); kernels "
+    "are judged for real and complex matrices",
     "at most 48 units of a batched call are judged (evenly spaced)",
     "angle ties (arcs of length pi, equal cosines, reference on an endpoint) "
     "within 1e-9 accept either order",
@@ -631,10 +631,19 @@ def make_kernel_hook(name):
             opts = b
         M = _real_array(mat)
         if M is None:
-            return mon.skip("matrix not real-numeric (complex kernels: see C16)")
+            # complex matrices: the same contract (M K = 0, K^H K = 1, right
+            # dimension).  Seeded change C18-r4-2: the basis returned unconjugated.
+            try:
+                Mc = np.asarray(mat)
+            except Exception:
+                Mc = None
+            if Mc is None or Mc.dtype.kind != "c":
+                return mon.skip("matrix not numeric")
+            M = Mc.astype(complex)
+        else:
+            M = M.astype(float)
         if M.ndim < 2 or M.size == 0 or not np.all(np.isfinite(M)):
             return mon.skip("matrix empty / not finite / not 2-d")
-        M = M.astype(float)
         tol = float(opts.get("tolerance", 1e-8))
         afr = bool(opts.get("assume_full_rank", False))
         mr = bool(opts.get("matching_rank", True))
@@ -1114,21 +1123,33 @@ def wl_kernel(run, rng, idx):
     from geometry_tools.utils import numerical
     m, n = MN[idx % len(MN)]
     batch = BATCHES[(idx // len(MN)) % len(BATCHES)]
+    cplx = idx % 3 == 2
+
+    def rank_matrix(r):
+        if not cplx:
+            return lin.rand_rank_matrix(rng, m, n, r)
+        qu, _ = np.linalg.qr(rng.normal(size=(m, m)) + 1j * rng.normal(size=(m, m)))
+        qv, _ = np.linalg.qr(rng.normal(size=(n, n)) + 1j * rng.normal(size=(n, n)))
+        sv = np.zeros((m, n))
+        for k in range(r):
+            sv[k, k] = float(np.exp(rng.uniform(np.log(0.5), np.log(2.0))))
+        return qu @ sv @ qv.conj().T
+
     for r in range(0, min(m, n) + 1):
-        M = np.empty(batch + (m, n))
+        M = np.empty(batch + (m, n), dtype=complex if cplx else float)
         for ix in (np.ndindex(*batch) if batch else [()]):
-            M[ix] = lin.rand_rank_matrix(rng, m, n, r)
+            M[ix] = rank_matrix(r)
         run.current_case = {"workload": "kernel", "m": m, "n": n, "rank": r, "batch": list(batch), "matrix": M}
-        run.note_class("kernel", m, n, r, batch)
+        run.note_class("kernel", m, n, r, batch, "complex" if cplx else "real")
         utils.kernel(M.copy())
         if r == min(m, n):
             numerical.svd_kernel(M.copy(), assume_full_rank=True)
     # mixed ranks in one batch, every return layout
     if batch:
         ranks = rng.integers(0, min(m, n) + 1, size=batch)
-        M = np.empty(batch + (m, n))
+        M = np.empty(batch + (m, n), dtype=complex if cplx else float)
         for ix in np.ndindex(*batch):
-            M[ix] = lin.rand_rank_matrix(rng, m, n, int(ranks[ix]))
+            M[ix] = rank_matrix(int(ranks[ix]))
         run.current_case = {"workload": "kernel", "m": m, "n": n, "ranks": ranks, "matrix": M}
         run.note_class("kernel-mixed", m, n, batch)
         for wd in (False, True):
